@@ -46,6 +46,8 @@ type report struct {
 	PoolPatched     bool              `json:"sync_pool_patched"`
 	TickSites       []string          `json:"clock_tick_sites"`
 	TickMode        string            `json:"clock_tick_mode"`
+	ChanOps         []string          `json:"channel_operations_modelled"`
+	ChanSkipped     []string          `json:"channel_operations_not_modelled"`
 	PackageLevelVar []string          `json:"package_level_vars"`
 }
 
@@ -287,6 +289,41 @@ func (r *rewriter) wantsTick(body *ast.BlockStmt) bool {
 	return isDispatchLoop(body)
 }
 
+// hasBareContinue reports whether a select body contains a `continue` without
+// label that refers to a loop outside the select.
+func hasBareContinue(body *ast.BlockStmt) bool {
+	found := false
+	var walk func(n ast.Node, inLoop bool)
+	walk = func(n ast.Node, inLoop bool) {
+		ast.Inspect(n, func(m ast.Node) bool {
+			if m == nil || found {
+				return false
+			}
+			switch x := m.(type) {
+			case *ast.FuncLit:
+				return false
+			case *ast.ForStmt:
+				if m != n {
+					walk(x.Body, true)
+					return false
+				}
+			case *ast.RangeStmt:
+				if m != n {
+					walk(x.Body, true)
+					return false
+				}
+			case *ast.BranchStmt:
+				if x.Tok == token.CONTINUE && x.Label == nil && !inLoop {
+					found = true
+				}
+			}
+			return true
+		})
+	}
+	walk(body, false)
+	return found
+}
+
 func tickStmt() ast.Stmt {
 	return &ast.ExprStmt{X: &ast.CallExpr{Fun: simSel("Tick")}}
 }
@@ -330,6 +367,23 @@ func (r *rewriter) run() bool {
 		}
 	}
 
+	// the communication statements of select cases stay as they are
+	inComm := map[ast.Node]bool{}
+	if !r.driver {
+		ast.Inspect(r.file, func(n ast.Node) bool {
+			if cc, ok := n.(*ast.CommClause); ok && cc.Comm != nil {
+				ast.Inspect(cc.Comm, func(m ast.Node) bool {
+					if m != nil {
+						inComm[m] = true
+					}
+					return true
+				})
+			}
+			return true
+		})
+	}
+	selN := 0
+
 	// enclosing function names for site labels
 	var curFn string
 	pre := func(c *astutil.Cursor) bool {
@@ -345,6 +399,68 @@ func (r *rewriter) run() bool {
 	}
 	post := func(c *astutil.Cursor) bool {
 		switch n := c.Node().(type) {
+		case *ast.SendStmt:
+			if r.driver || inComm[n] {
+				return true
+			}
+			c.Replace(&ast.ExprStmt{X: &ast.CallExpr{Fun: simSel("ChanSend"), Args: []ast.Expr{n.Chan, n.Value}}})
+			r.rep.ChanOps = append(r.rep.ChanOps, r.site(n.Pos(), curFn)+" send")
+			r.needSim, changed = true, true
+		case *ast.UnaryExpr:
+			if r.driver || n.Op != token.ARROW || inComm[n] {
+				return true
+			}
+			// `v, ok := <-ch` keeps both results
+			fn := "ChanRecv"
+			if as, ok := c.Parent().(*ast.AssignStmt); ok && len(as.Lhs) == 2 && len(as.Rhs) == 1 && as.Rhs[0] == ast.Expr(n) {
+				fn = "ChanRecv2"
+			}
+			if vs, ok := c.Parent().(*ast.ValueSpec); ok && len(vs.Names) == 2 && len(vs.Values) == 1 {
+				fn = "ChanRecv2"
+			}
+			c.Replace(&ast.CallExpr{Fun: simSel(fn), Args: []ast.Expr{n.X}})
+			r.rep.ChanOps = append(r.rep.ChanOps, r.site(n.Pos(), curFn)+" receive")
+			r.needSim, changed = true, true
+		case *ast.SelectStmt:
+			if r.driver {
+				return true
+			}
+			site := r.site(n.Pos(), curFn)
+			hasDefault := false
+			for _, cl := range n.Body.List {
+				if cc, ok := cl.(*ast.CommClause); ok && cc.Comm == nil {
+					hasDefault = true
+				}
+			}
+			if hasDefault {
+				// non-blocking already, but still a point where another
+				// goroutine may get in between: yield before it
+				if _, isBlock := c.Parent().(*ast.BlockStmt); isBlock {
+					c.InsertBefore(&ast.ExprStmt{X: &ast.CallExpr{Fun: simSel("SelectStart")}})
+					r.rep.ChanOps = append(r.rep.ChanOps, site+" select with default (yield only)")
+					r.needSim, changed = true, true
+				}
+				return true
+			}
+			if _, labeled := c.Parent().(*ast.LabeledStmt); labeled {
+				r.rep.ChanSkipped = append(r.rep.ChanSkipped, site+" select (labeled)")
+				return true
+			}
+			// { SelectStart(); L: select { …cases…; default: SelectWait(); goto L } }
+			// (goto, not a loop: break/continue in the cases keep their meaning
+			// and a select whose cases all return stays a terminating statement)
+			selN++
+			label := ast.NewIdent(fmt.Sprintf("verifSelect%d", selN))
+			n.Body.List = append(n.Body.List, &ast.CommClause{Body: []ast.Stmt{
+				&ast.ExprStmt{X: &ast.CallExpr{Fun: simSel("SelectWait")}},
+				&ast.BranchStmt{Tok: token.GOTO, Label: label},
+			}})
+			c.Replace(&ast.BlockStmt{List: []ast.Stmt{
+				&ast.ExprStmt{X: &ast.CallExpr{Fun: simSel("SelectStart")}},
+				&ast.LabeledStmt{Label: label, Stmt: n},
+			}})
+			r.rep.ChanOps = append(r.rep.ChanOps, site+" select")
+			r.needSim, changed = true, true
 		case *ast.ForStmt:
 			if r.wantsTick(n.Body) {
 				r.rep.TickSites = append(r.rep.TickSites, r.site(n.Pos(), curFn))
@@ -362,6 +478,33 @@ func (r *rewriter) run() bool {
 			}
 			tv, ok := info.Types[n.X]
 			if !ok {
+				return true
+			}
+			if _, isChan := tv.Type.Underlying().(*types.Chan); isChan {
+				if _, labeled := c.Parent().(*ast.LabeledStmt); labeled {
+					r.rep.ChanSkipped = append(r.rep.ChanSkipped, r.site(n.Pos(), curFn)+" range over channel (labeled)")
+					return true
+				}
+				r.n++
+				v, okID := ast.NewIdent("verifCV"+strconv.Itoa(r.n)), ast.NewIdent("verifCOK"+strconv.Itoa(r.n))
+				body := []ast.Stmt{
+					&ast.AssignStmt{Lhs: []ast.Expr{v, okID}, Tok: token.DEFINE, Rhs: []ast.Expr{&ast.CallExpr{Fun: simSel("ChanRecv2"), Args: []ast.Expr{n.X}}}},
+					&ast.IfStmt{Cond: &ast.UnaryExpr{Op: token.NOT, X: okID}, Body: &ast.BlockStmt{List: []ast.Stmt{&ast.BranchStmt{Tok: token.BREAK}}}},
+					&ast.AssignStmt{Lhs: []ast.Expr{ast.NewIdent("_")}, Tok: token.ASSIGN, Rhs: []ast.Expr{v}},
+				}
+				if n.Key != nil {
+					if id, isID := n.Key.(*ast.Ident); !isID || id.Name != "_" {
+						tok := n.Tok
+						if tok != token.DEFINE && tok != token.ASSIGN {
+							tok = token.DEFINE
+						}
+						body = append(body, &ast.AssignStmt{Lhs: []ast.Expr{n.Key}, Tok: tok, Rhs: []ast.Expr{v}})
+					}
+				}
+				body = append(body, n.Body.List...)
+				c.Replace(&ast.ForStmt{Body: &ast.BlockStmt{List: body}})
+				r.rep.ChanOps = append(r.rep.ChanOps, r.site(n.Pos(), curFn)+" range over channel")
+				r.needSim, changed = true, true
 				return true
 			}
 			if _, isMap := tv.Type.Underlying().(*types.Map); !isMap {
